@@ -209,3 +209,145 @@ Example C09Z_ex_sequence :
 Proof. vm_compute. reflexivity. Qed.
 Example C09Z_ex_update_missing : zu_update enc0 C09Z_ex_tree [[122]] PNone false = (RExn ENoNode, C09Z_ex_tree).
 Proof. vm_compute. reflexivity. Qed.
+
+(* ================================================================== second part: any wf tree, node present or not
+   [is_anc q p]: q is a proper ancestor of p other than "/".
+   [created_spec t t' p v eph A]: for every q, t' holds at q - the node (v, eph, version 0, acl A) if q = p; an empty
+     persistent node with acl A if q is an ancestor of p missing in t; what t holds otherwise.
+   [removed t t' p]: for every q, t' holds nothing at q if p is a prefix of q, what t holds otherwise. *)
+
+Theorem C09Z_wfb_sound : forall N, wfb N = true -> wf N.
+Proof. intros N H. exact (wfb_wf N H). Qed.
+Print Assumptions C09Z_wfb_sound.
+
+(** (c) create (makepath) of a missing node, when it returns a path: that path is p, p was missing, exactly p and its
+    missing ancestors are new (created_spec), wf is kept *)
+Theorem C09Z_create_missing_spec : forall enc t p d acl dflt eph p' t', wf (nodes t) ->
+  zu_create enc t p d acl false dflt eph = (RPath p', t') ->
+  p' = p /\ has (nodes t) p = false /\ wf (nodes t') /\
+  created_spec t t' p (payload enc d) eph (mk_default (realacl dflt acl)).
+Proof. intros enc t p d acl dflt eph p' t' W H. exact (create_missing_spec enc t p d acl dflt eph p' t' W H). Qed.
+Print Assumptions C09Z_create_missing_spec.
+
+(** what created_spec says in words: every existing path unchanged; all ancestors exist afterwards; a new path is p
+    or an ancestor of p *)
+Theorem C09Z_created_spec_facts : forall t t' p v eph A, has (nodes t) p = false -> created_spec t t' p v eph A ->
+  (forall q, has (nodes t) q = true -> find (nodes t') q = find (nodes t) q) /\
+  (forall q, is_anc q p = true -> has (nodes t') q = true) /\
+  (forall q, has (nodes t) q = false -> has (nodes t') q = true -> q = p \/ is_anc q p = true).
+Proof. intros t t' p v eph A H S. exact (created_spec_facts t t' p v eph A H S). Qed.
+Print Assumptions C09Z_created_spec_facts.
+
+Theorem C09Z_create_preserves_wf : forall enc t p d acl sequ dflt eph, wf (nodes t) ->
+  wf (nodes (snd (zu_create enc t p d acl sequ dflt eph))).
+Proof. intros enc t p d acl sequ dflt eph W. exact (create_preserves_wf enc t p d acl sequ dflt eph W). Qed.
+Print Assumptions C09Z_create_preserves_wf.
+
+(** kazoo create without makepath: NoNodeError iff the parent is missing; the tree is unchanged *)
+Theorem C09Z_create_nomakepath_nonode : forall t p v acl eph sequ,
+  (has (nodes t) (removelast p) = false -> k_create t p v acl eph sequ false = (RExn ENoNode, t)) /\
+  (forall t', k_create t p v acl eph sequ false = (RExn ENoNode, t') -> has (nodes t) (removelast p) = false /\ t' = t).
+Proof. intros t p v acl eph sequ. exact (create_nomakepath_nonode t p v acl eph sequ). Qed.
+Print Assumptions C09Z_create_nomakepath_nonode.
+
+(** (a) put on ANY wf tree (node present or not, any flags but sequence), when it does not raise: it returns the path
+    (or None: check_content and nothing to write); get returns the payload; every other path is unchanged except
+    that the missing ancestors - only those - are new, empty and persistent *)
+Theorem C09Z_put_then_get : forall enc t p d acl dflt eph chk r t', wf (nodes t) ->
+  zu_put enc t p d acl false dflt eph chk = (r, t') -> (forall e, r <> RExn e) ->
+  (r = RPath p \/ (r = RNone /\ chk = true /\ t' = t)) /\
+  (exists n', find (nodes t') p = Some n' /\ n_data n' = payload enc d /\
+              zu_get t' p = RData (payload enc d) (n_ver n') /\
+              (r = RPath p -> n_acl n' = mk_default (realacl dflt acl))) /\
+  (forall q, q <> p -> find (nodes t') q =
+                       if is_anc q p && negb (has (nodes t) q)
+                       then Some (mknode [] false (mk_default (realacl dflt acl))) else find (nodes t) q).
+Proof. intros enc t p d acl dflt eph chk r t' W H Hne. exact (put_then_get enc t p d acl dflt eph chk r t' W H Hne). Qed.
+Print Assumptions C09Z_put_then_get.
+
+Theorem C09Z_put_preserves_wf : forall enc t p d acl sequ dflt eph chk, wf (nodes t) ->
+  wf (nodes (snd (zu_put enc t p d acl sequ dflt eph chk))).
+Proof. intros enc t p d acl sequ dflt eph chk W. exact (put_preserves_wf enc t p d acl sequ dflt eph chk W). Qed.
+Print Assumptions C09Z_put_preserves_wf.
+
+(** put p d; put p d: with check_content the second call returns None and changes nothing; without it the second
+    call rewrites the same bytes - the tree differs from the first result in the version of p only, +1 *)
+Theorem C09Z_put_idempotent : forall enc t p d acl dflt eph chk1 t1, wf (nodes t) ->
+  zu_put enc t p d acl false dflt eph chk1 = (RPath p, t1) ->
+  zu_put enc t1 p d acl false dflt eph true = (RNone, t1) /\
+  exists n1 t2, find (nodes t1) p = Some n1 /\
+    zu_put enc t1 p d acl false dflt eph false = (RPath p, t2) /\ cvs t2 = cvs t1 /\
+    forall q, find (nodes t2) q =
+              if path_eqb p q
+              then Some {| n_data := n_data n1; n_eph := n_eph n1; n_ver := n_ver n1 + 1; n_acl := n_acl n1 |}
+              else find (nodes t1) q.
+Proof. intros enc t p d acl dflt eph chk1 t1 W H. exact (put_idempotent enc t p d acl dflt eph chk1 t1 W H). Qed.
+Print Assumptions C09Z_put_idempotent.
+
+(** (e) ensure_exists of a missing node *)
+Theorem C09Z_ensure_exists_missing : forall enc t p acl d r t', wf (nodes t) -> has (nodes t) p = false ->
+  zu_ensure_exists enc t p acl false d = (r, t') -> (forall e, r <> RExn e) ->
+  r = RPath p /\ created_spec t t' p (payload enc d) false (mk_default (Some (mk_default acl))).
+Proof. intros enc t p acl d r t' W Hp H Hne. exact (ensure_exists_missing enc t p acl d r t' W Hp H Hne). Qed.
+Print Assumptions C09Z_ensure_exists_missing.
+
+Theorem C09Z_ensure_exists_preserves_wf : forall enc t p acl sequ d, wf (nodes t) ->
+  wf (nodes (snd (zu_ensure_exists enc t p acl sequ d))).
+Proof. intros enc t p acl sequ d W. exact (ensure_exists_preserves_wf enc t p acl sequ d W). Qed.
+Print Assumptions C09Z_ensure_exists_preserves_wf.
+
+Theorem C09Z_update_preserves_wf : forall enc t p d chk, wf (nodes t) -> wf (nodes (snd (zu_update enc t p d chk))).
+Proof. intros enc t p d chk W. exact (update_preserves_wf enc t p d chk W). Qed.
+Print Assumptions C09Z_update_preserves_wf.
+
+(** (f) ensure_deleted(recursive=True) of any path but "/" on a wf tree: the result is None - no exception, and the
+    model's recursion fuel never runs out -, nothing at or below p is left, every other path is unchanged, wf kept;
+    whether or not p existed *)
+Theorem C09Z_ensure_deleted_recursive : forall t p, wf (nodes t) -> p <> [] ->
+  exists t', zu_ensure_deleted t p true = (RNone, t') /\ removed t t' p /\ wf (nodes t').
+Proof. intros t p W Hp. exact (ensure_deleted_recursive t p W Hp). Qed.
+Print Assumptions C09Z_ensure_deleted_recursive.
+
+(** (i) ZkBackend refines the in-memory backend of the master harness (harness/emaster.py Mem) on the abstraction
+    [abs t q] = the bytes stored at q: put = map update (+ empty missing ancestors), ensure_exists = insert empty if
+    absent (+ ancestors), delete = removal of the path and all its descendants; everything else unchanged *)
+Theorem C09Z_backend_put_refines : forall enc aclf t p d r t', wf (nodes t) ->
+  bk_put enc aclf t p d = (r, t') -> (forall e, r <> RExn e) ->
+  r = RPath p /\ wf (nodes t') /\ forall q, abs t' q = mem_put p (payload enc d) (abs t) q.
+Proof. intros enc aclf t p d r t' W H Hne. exact (backend_put_refines enc aclf t p d r t' W H Hne). Qed.
+Print Assumptions C09Z_backend_put_refines.
+
+Theorem C09Z_backend_ensure_exists_refines : forall enc aclf t p r t', wf (nodes t) ->
+  bk_ensure_exists enc aclf t p = (r, t') -> (forall e, r <> RExn e) ->
+  r = RPath p /\ wf (nodes t') /\ forall q, abs t' q = mem_ensure p (abs t) q.
+Proof. intros enc aclf t p r t' W H Hne. exact (backend_ensure_exists_refines enc aclf t p r t' W H Hne). Qed.
+Print Assumptions C09Z_backend_ensure_exists_refines.
+
+Theorem C09Z_backend_delete_refines : forall t p, wf (nodes t) -> p <> [] ->
+  exists t', bk_delete t p = (RNone, t') /\ wf (nodes t') /\ forall q, abs t' q = mem_delete p (abs t) q.
+Proof. intros t p W Hp. exact (backend_delete_refines t p W Hp). Qed.
+Print Assumptions C09Z_backend_delete_refines.
+
+(* non-vacuity of the second part *)
+Example C09Z_ex_wf_prop : wf (nodes C09Z_ex_tree).
+Proof. apply wfb_wf. vm_compute. reflexivity. Qed.
+Example C09Z_ex_backend_put_missing :
+  let r := bk_put enc0 (fun _ => None) C09Z_ex_tree [[120]; [121]; [122]] (PBytes [1; 2]) in
+  (fst r, map (abs (snd r)) [[[120]]; [[120]; [121]]; [[120]; [121]; [122]]; [[97]; [100]]; [[122]]])
+  = (RPath [[120]; [121]; [122]], [Some []; Some []; Some [1; 2]; Some [123; 125]; None]).
+Proof. vm_compute. reflexivity. Qed.
+Example C09Z_ex_backend_delete :
+  map (abs (snd (bk_delete C09Z_ex_tree [[97]; [98]]))) [[[97]]; [[97]; [98]]; [[97]; [98]; [99]]; [[97]; [100]]]
+  = [Some []; None; None; Some [123; 125]].
+Proof. vm_compute. reflexivity. Qed.
+Example C09Z_ex_put_raises_under_ephemeral :   (* the hypothesis "does not raise" of put_then_get can fail *)
+  exists e, fst (zu_put enc0 C09Z_ex_tree [[97]; [98]; [99]; [100]] PNone None false true false false) = RExn e.
+Proof. exists ENoChildEph. vm_compute. reflexivity. Qed.
+
+(** create(makepath=True) of a missing node on a wf tree either makes it (then C09Z_create_missing_spec applies) or
+    raises NoChildrenForEphemeralsError; no other exception *)
+Theorem C09Z_create_missing_outcome : forall t p v acl eph, wf (nodes t) -> has (nodes t) p = false ->
+  (exists t', k_create t p v acl eph false true = (RPath p, t')) \/
+  (exists t', k_create t p v acl eph false true = (RExn ENoChildEph, t')).
+Proof. intros t p v acl eph W Hp. exact (create_missing_outcome t p v acl eph W Hp). Qed.
+Print Assumptions C09Z_create_missing_outcome.
